@@ -118,7 +118,22 @@ def create_load_table(
     else:
         if debug:
             h_print(f"Loading LR table from '{table_file_name}'")
-        table = load_table(table_file_name, grammar)
+        try:
+            table = load_table(table_file_name, grammar)
+        except (ValueError, KeyError, TypeError, IndexError, AttributeError):
+            # Table file is corrupted or incomplete (e.g. left by an
+            # interrupted write). Recalculate.
+            table = create_table(
+                grammar,
+                itemset_type,
+                start_production,
+                prefer_shifts,
+                prefer_shifts_over_empty,
+                debug=debug,
+                **kwargs,
+            )
+            with contextlib.suppress(PermissionError):
+                save_table(table_file_name, table)
 
     return table
 
